@@ -6,6 +6,7 @@ import (
 	"math/big"
 	"reflect"
 	"sort"
+	"strings"
 )
 
 // Sort any []any value.
@@ -76,7 +77,43 @@ func valueLess(class int, a, b reflect.Value) bool {
 		if sa, sb := fmt.Sprint(a), fmt.Sprint(b); sa != sb {
 			return sa < sb
 		}
-		return fmt.Sprintf("%#v", a) < fmt.Sprintf("%#v", b)
+		return keySyntax(a) < keySyntax(b)
+	}
+}
+
+// keySyntax prints a map key together with the type of everything it holds, so that keys
+// that differ at all print differently: [1]any{1} and [1]any{1.0} are both [1] to %v and
+// both [1]interface {}{1} to %#v.
+func keySyntax(v reflect.Value) string {
+	var sb strings.Builder
+	writeKeySyntax(&sb, v)
+	return sb.String()
+}
+
+func writeKeySyntax(sb *strings.Builder, v reflect.Value) {
+	switch v.Kind() {
+	case reflect.Invalid:
+		sb.WriteString("nil")
+	case reflect.Interface:
+		writeKeySyntax(sb, v.Elem())
+	case reflect.Array:
+		sb.WriteString(v.Type().String())
+		sb.WriteByte('{')
+		for i := 0; i < v.Len(); i++ {
+			writeKeySyntax(sb, v.Index(i))
+			sb.WriteByte(',')
+		}
+		sb.WriteByte('}')
+	case reflect.Struct:
+		sb.WriteString(v.Type().String())
+		sb.WriteByte('{')
+		for i := 0; i < v.NumField(); i++ {
+			writeKeySyntax(sb, v.Field(i))
+			sb.WriteByte(',')
+		}
+		sb.WriteByte('}')
+	default:
+		fmt.Fprintf(sb, "%s(%#v)", v.Type(), v)
 	}
 }
 
